@@ -8,6 +8,7 @@ violates the full clause, see `Witness.lean`.)
 -/
 import CaddyModel.C09.PoolLemmas
 import CaddyModel.C09.SchedLemmas
+import CaddyModel.C09.FuelLemmas
 import CaddyModel.C09.Concrete
 import CaddyModel.C09.Witness
 
@@ -72,6 +73,17 @@ theorem incs_eq_decs {s : State} (h : Reachable s) {q : Req} (hq : q ∈ s.reqs)
   simp [hn] at this; exact this
 
 example : ∃ s, Reachable s ∧ (s.reqs[0]?).map (fun q => (q.incs, q.hist.length, q.pc.inFlight)) = some (2, 2, false) :=
+  witness exB (by decide)
+
+/-- retry on another upstream: a request makes at most `retries + 1` attempts (so the proxy loop —
+    and the fuel of the schedule interpreter — is bounded), each of them counted in and out once -/
+theorem attempts_bounded {s : State} (h : Reachable s) {q : Req} (hq : q ∈ s.reqs) :
+    q.retries ≤ q.par.retries ∧ q.incs ≤ q.par.retries + 1 := by
+  have := (inv_reachable h).retry_ok q hq
+  have hb : b2n q.pc.notStart ≤ 1 := by cases q.pc.notStart <;> simp
+  omega
+
+example : ∃ s, Reachable s ∧ (s.reqs[0]?).map (fun q => (q.incs, q.retries, q.par.retries)) = some (2, 1, 1) :=
   witness exB (by decide)
 
 -- ---------------------------------------------------------------- failure accounting
@@ -270,6 +282,18 @@ theorem sched_reachable {d d' : DState} {st : SStep} {ev : String} (h : Reachabl
   settle_reachable (sstep_reachable h hs)
 
 example : (sstep dinit (.load [0, 1] pA)).isSome = true := by decide
+
+/-- the proxy loop of the schedule interpreter never runs out of fuel: the wire syntax limits
+    `retries` to 8 and the interpreter passes `fuel0 = 12` (see `FuelLemmas.advance_never_runs_out_of_fuel`
+    for the general bound `retries still allowed < fuel`) -/
+theorem sched_never_runs_out_of_fuel (d : DState) (r : Nat) (q : Req) (hq : d.s.reqs[r]? = some q)
+    (hpc : q.pc = .start) (hcfg : ∃ cs, d.s.cfgs[q.cfg]? = some cs) (hr : q.par.retries ≤ 8) :
+    (advance fuel0 d r).isSome = true :=
+  advance_never_runs_out_of_fuel fuel0 d r q hq hpc hcfg (by simp only [fuel0]; omega)
+
+example : ((sstep dinit (.load [0, 1] { pA with retries := 8 })).bind fun x =>
+    (sstep { x.1 with down := [0, 1] } (.newReq true)).map fun y => (y.2, (y.1.s.reqs.map (·.retries)))) = some ("err", [8]) := by
+  decide
 
 /-- …including the final quiescent state -/
 theorem quiesce_state_reachable {d : DState} (h : Reachable d.s) : Reachable (quiesce d) := quiesce_reachable h
